@@ -324,13 +324,17 @@ NeverPoisoned == ~poisoned
 Held == {wtask[w] : w \in {x \in Workers : wpc[x] \in {"got", "run"}}}
 InQueue == {q[i] : i \in 1 .. Len(q)} \ {SHUTDOWN}
 NoLossNoDup ==
+  LET inq  == InQueue
+      held == Held
+      running == {wtask[w] : w \in {x \in Workers : wpc[x] = "run"}}
+  IN
   /\ \A w \in Workers : (wtask[w] # 0) <=> (wpc[w] \in {"got", "run"})
   /\ \A w1, w2 \in Workers : (w1 # w2 /\ wtask[w1] # 0) => wtask[w1] # wtask[w2]
-  /\ \A i, j \in 1 .. Len(q) : (i < j) => (q[i] # SHUTDOWN /\ (q[j] # SHUTDOWN => q[i] < q[j]))
-  /\ \A t \in Tasks : (t <= nsub) =>
-        \/ t \in InQueue /\ t \notin Held /\ ran[t] = 0
-        \/ t \notin InQueue /\ t \in Held /\ ran[t] = (IF \E w \in Workers : wtask[w] = t /\ wpc[w] = "run" THEN 1 ELSE 0)
-        \/ t \notin InQueue /\ t \notin Held /\ ran[t] = 1
+  /\ \A i \in 1 .. Len(q) - 1 : q[i] # SHUTDOWN /\ (q[i + 1] # SHUTDOWN => q[i] < q[i + 1])
+  /\ \A t \in 1 .. nsub :
+        \/ t \in inq /\ t \notin held /\ ran[t] = 0
+        \/ t \notin inq /\ t \in held /\ ran[t] = (IF t \in running THEN 1 ELSE 0)
+        \/ t \notin inq /\ t \notin held /\ ran[t] = 1
 
 \* "a task that panics affects nothing but itself": no worker leaves before stop/drop, and before
 \* the Sender is gone only the one that consumed the single Shutdown has left
@@ -355,6 +359,10 @@ AllWorkersExit     == <>[](Started \subseteq Gone)
 PanicIsolated      == \A w \in Workers : (wpc[w] \in {"unwinding", "dead"}) ~> (wpc[w] = "idle")
 EventuallyQuiescent == <>[]Quiescent
 AllSubmittedDone   == <>[](\A t \in Tasks : t <= nsub => SubmittedOK(t))
+
+\* all of the above in one formula (the system always terminates, so the liveness properties are
+\* statements about the final states); used alone at the largest bound
+LiveAll            == <>[](Quiescent /\ \A t \in Tasks : t <= nsub => SubmittedOK(t))
 
 \* "up to N tasks run at the same time": TLC must VIOLATE this (witness of N running)
 NeverAllRunning == Cardinality(Running) < N
